@@ -22,6 +22,29 @@ def main(pid, tier):
         emuhist.conformance(ck, bdir, g, tier, limit_quick=12000, limit_thorough=None, label="C07/" + name,
                             pairs=600 if tier == "quick" else 20000, pair_same=emuhist.same_category)
     ck.phase("transition_cover")
+    # both task models in ONE trace (a Nanos6 runtime on top of nOS-V, or two runtimes in one process): the
+    # rules of each model hold whatever the other one did before - Nanos6 may nest over a running task
+    # (relaxed), nOS-V may not
+    from checks import emu_models
+
+    def E(m, a=None, j=False):
+        return {"th": 1, "m": m, "mc": m[0], "a": a or [], "j": j}
+    X, End = E("OHx", [0, 101, 7]), E("OHe")
+    n6 = [E("6Yc", [1, 5], True), E("6Tc", [1, 1]), E("6Tc", [2, 1])]
+    nv = [E("VYc", [1, 5], True), E("VTc", [1, 1]), E("VTc", [2, 1])]
+    # (a region between the two task starts: a task begun directly over the body region of another one is
+    # Unspecified, see the assumptions)
+    relaxed = [E("6Tx", [1]), E("6U["), E("6Tx", [2]), E("6Te", [2]), E("6U]"), E("6Te", [1])]
+    mixed = [
+        [X] + n6 + nv + relaxed + [E("VTx", [1, 0]), E("VTx", [2, 0]), E("VTe", [2, 0]), E("VTe", [1, 0]), End],
+        [X] + n6 + nv + relaxed + [E("VTx", [1, 0]), E("VTp", [1, 0]), E("VTx", [2, 0]), E("VTe", [2, 0]),
+                                   E("VTr", [1, 0]), E("VTe", [1, 0]), End],
+        [X] + n6 + nv + [E("VTx", [1, 0]), E("VTx", [2, 0]), E("VTe", [2, 0]), E("VTe", [1, 0])] + relaxed + [End],
+        [X] + n6 + nv + [E("VTx", [1, 0])] + relaxed + [E("VTe", [1, 0]), End],
+    ]
+    system = emu_models.sys1({"O", "V", "6"})
+    emu_models.run_extra(ck, bdir, emuhist.sys_with_rank(system), mixed, "C07/both-models")
+    ck.phase("both_models")
     try:
         from checks import taskmod
         taskmod.run(ck, bdir, tier)
